@@ -13,7 +13,8 @@ executor/executor.py, data_server.py, the zmq/shm transport -- is exercised HERE
                          deadline enforced from outside, session kill + unlink, reaper)              -> State.outputs
     oracle: every requested output delivered, with the reference value; the run ends before the deadline; no error.
 
-Values are ints / strings / (nested) tuples / bytes / NumPy arrays (several dtypes, 0-d to 2-d, non-contiguous views) /
+Values are ints / strings / (nested) tuples / bytes / NumPy arrays (several dtypes, 0-d to 2-d, non-contiguous views; below
+~1 KiB but in the family big-values: bytes and arrays of 64 KiB .. 2 MiB, compared through length / dtype / shape / sha256) /
 `Box`es (a type that refuses pickle and travels only through the serde pair registered in `JobInstance.serdes`), built
 injectively from (task, output index, every bound parameter with its name), so a value bound to the wrong parameter, a
 default winning over an upstream value, outputs published under the wrong names, or a stale / foreign copy all change
@@ -51,6 +52,15 @@ KINDS = ("real-cluster-wrong-value", "real-cluster-missing-output", "real-cluste
          "real-cluster-purge-before-consumers-done", "real-cluster-purge-before-delivered", "real-cluster-purge-while-unanswered")
 RETS = ("int", "tuple", "str", "sum")                 # the plain kinds (every family)
 RETS_RICH = ("nd", "nd", "bytes")                     # + with `rich`: ndarray / bytes values
+# "bigbytes" / "bignd" (family big-values only): bytes / ndarray values of BIG_MIN..BIG_MAX bytes (the size class above zmq's
+# zero-copy threshold and above one shm page; everything else in this module is below ~1 KiB)
+BIG_MIN, BIG_MAX = 64 * 1024, 2 * 1024 * 1024
+# "hugebytes" / "hugend" (one source of every big-values job): 8 .. 24 MiB -- more than a socket buffer holds, so the sender is
+# still at work on the value long after `send` has returned
+HUGE_MIN, HUGE_MAX = 8 * 1024 * 1024, 24 * 1024 * 1024
+# zero-length values (family zero-length only): a result that carries no byte / no element at all, and a 0-d array (no axis)
+ZERO_KINDS = ("zbytes", "zstr", "ztuple", "zlist", "znd", "znd2", "nd0")
+DIGEST_FROM = 4096         # values with more bytes than this are rendered / compared through (length, dtype, shape, sha256 of the bytes)
 # "ndm" (family nd-replicated only): an ndarray with >= 2 elements for sure -- `==`/`!=` on it are element-wise and its truth value raises
 STARTUP_S = 20.0           # executors forked, data servers listening, every host registered at the Bridge (healthy: 1-3 s, under load up to ~11 s)
 JOB_S = 25.0               # controller.impl.run from its first line to its return, shutdown of the executors included (healthy: 0.3-2 s, under load up to ~8 s)
@@ -59,6 +69,7 @@ _LADDER_TXT = "/".join(str(int(x)) for x in STARTUP_LADDER)
 RERUN_JOB_S = 3 * JOB_S     # patience of the runs that decide whether a hang is real: a deadlock does not end after 75 s either
 CALM_WAIT_S = 180.0        # those runs wait for the machine's load to fall below its number of cores, at most this long
 DEADLINE_S = STARTUP_S + JOB_S + 5.0      # outer deadline of the runner subprocess; the two inner ones are enforced by the runner itself
+RUNNER_NICE = -10          # niceness of the runner and everything it forks (ignored when the check may not lower it)
 TRACE_DIR = None           # set in the runner before the executors are forked (inherited by every worker)
 
 
@@ -131,15 +142,80 @@ def _fmt(v):
         return "<" + v + ">"
     if isinstance(v, tuple):
         return "(" + ",".join(_fmt(x) for x in v) + ")"
+    if type(v) is list:
+        return "list[" + ",".join(_fmt(x) for x in v) + "]"
     if isinstance(v, bytes):
+        if len(v) > DIGEST_FROM:
+            return f"b<#{len(v)}:{hashlib.sha256(v).hexdigest()}>"
         return "b<" + v.hex() + ">"
     if type(v) is TBox:
         return "TBox<" + v.tag + "|" + v.payload + ">"
     if isinstance(v, Box):
         return "Box<" + v.payload + ">"
     if _is_nd(v):
+        if v.nbytes > DIGEST_FROM:
+            return f"nd<{v.dtype.str};{list(v.shape)};#{hashlib.sha256(_nd_bytes(v)).hexdigest()}>"
         return f"nd<{v.dtype.str};{list(v.shape)};{v.tolist()!r}>"
     return repr(v)
+
+
+def _nd_bytes(v):
+    """the elements of an array in C order, as bytes (whatever its memory layout)"""
+    import numpy as np
+    return np.ascontiguousarray(v).tobytes()
+
+
+def _zero(ret, s):
+    """b"", "", (), [], an array without elements (1-d, 2-d) -- and a 0-d array (one element, no axis) whose value depends on s"""
+    if ret == "zbytes":
+        return b""
+    if ret == "zstr":
+        return ""
+    if ret == "ztuple":
+        return ()
+    if ret == "zlist":
+        return []
+    import numpy as np
+    if ret == "znd":
+        return np.zeros(0)
+    if ret == "znd2":
+        return np.zeros((0, 3), dtype=np.int32)
+    return np.array((zlib.crc32(s.encode()) % 4001) / 8.0, dtype=np.float32)
+
+
+def _big_size(n, lo=BIG_MIN, hi=BIG_MAX):
+    return lo + (n * 2654435761) % (hi - lo + 1)
+
+
+def _big_bytes(s, lo=BIG_MIN, hi=BIG_MAX):
+    """lo..hi bytes determined by the string s (no period: a truncated, shifted or partly overwritten copy differs)"""
+    import numpy as np
+    n = zlib.crc32(s.encode())
+    return np.random.Generator(np.random.PCG64(n)).bytes(_big_size(n, lo, hi))
+
+
+def _huge_nd(s):
+    import numpy as np
+    n = zlib.crc32(s.encode())
+    return np.random.Generator(np.random.PCG64(n ^ 0xA5A5)).integers(-(1 << 40), 1 << 40, size=_big_size(n, HUGE_MIN, HUGE_MAX) // 8, dtype=np.int64)
+
+
+def _big_nd(s):
+    """An ndarray of BIG_MIN..BIG_MAX bytes determined by s: dtype, rank and memory layout vary with s."""
+    import numpy as np
+    n = zlib.crc32(s.encode())
+    g = np.random.Generator(np.random.PCG64(n ^ 0x5A5A))
+    k = (n >> 7) % 5
+    nb = _big_size(n)
+    if k == 0:
+        return g.integers(-(1 << 40), 1 << 40, size=nb // 8, dtype=np.int64)
+    if k == 1:
+        return g.integers(0, 1 << 20, size=(nb // 8 // 64, 64)).astype(np.float64) / 16.0      # 2-d float64 (exact values)
+    if k == 2:
+        return g.integers(0, 1 << 16, size=(2 * (nb // 2 // 32), 32), dtype=np.uint16)[::2]      # non-contiguous view (every other row)
+    if k == 3:
+        return np.asfortranarray(g.integers(0, 1 << 31, size=(nb // 4 // 48, 48), dtype=np.int32))
+    return g.integers(0, 256, size=nb, dtype=np.uint8)
 
 
 def _nd(s):
@@ -176,6 +252,16 @@ def _val(ret, tag, i, bound):
         return s
     if ret == "bytes":
         return s.encode()
+    if ret in ZERO_KINDS:
+        return _zero(ret, s)
+    if ret == "hugebytes":
+        return _big_bytes(s, HUGE_MIN, HUGE_MAX)
+    if ret == "hugend":
+        return _huge_nd(s)
+    if ret == "bigbytes":
+        return _big_bytes(s)
+    if ret == "bignd":
+        return _big_nd(s)
     if ret == "box":
         return Box(s)
     if ret == "tbox":
@@ -199,13 +285,19 @@ def _canon(v):
         return repr(v)
     if type(v) is tuple:
         return "(" + ", ".join(_canon(x) for x in v) + ("," if len(v) == 1 else "") + ")"
+    if type(v) is list:
+        return "list[" + ", ".join(_canon(x) for x in v) + "]"
     if type(v) is bytes:
+        if len(v) > DIGEST_FROM:
+            return f"bytes#{len(v)}:sha256:{hashlib.sha256(v).hexdigest()}:head:{v[:8].hex()}:tail:{v[-8:].hex()}"
         return "bytes:" + v.hex()
     if type(v) is Box:
         return "Box:" + repr(v.payload)
     if type(v) is TBox:
         return "TBox:" + repr(v.tag) + ":" + repr(v.payload)
     if _is_nd(v):
+        if v.nbytes > DIGEST_FROM:
+            return f"nd:{v.dtype.str}:{list(v.shape)}:#{v.nbytes}:sha256:{hashlib.sha256(_nd_bytes(v)).hexdigest()}"
         return f"nd:{v.dtype.str}:{list(v.shape)}:{v.tolist()!r}"
     return f"{type(v).__module__}.{type(v).__qualname__}:{v!r}"
 
@@ -254,6 +346,13 @@ def _trace(task):
             f.write(json.dumps(rec) + "\n")
     except Exception:
         pass
+
+
+def _nap(secs):
+    """Second statement of a task body of the family slow-bodies: the body takes `secs` of wall clock inside a worker of a real run
+    (TRACE_DIR is set there and only there); the sequential reference in the check process does not wait."""
+    if TRACE_DIR:
+        time.sleep(secs)
 
 
 def _log_ctrl(rec):
@@ -366,8 +465,9 @@ def _gen_task(rng, name, up, consumed, force=None, rets=RETS):
 
 SHAPES_DENSE = [(2, 1), (2, 2), (1, 2), (2, 1), (2, 3), (1, 3)]
 SHAPES_3H = [(3, 1), (3, 2), (3, 3), (3, 1)]
+SHAPES_4H = [(4, 1), (4, 1), (4, 2)]                  # an executor takes 3 ports of the 10 its host owns; the port allocator hands out blocks of 40
 SHAPES_ANY = [(1, 1), (1, 2), (2, 1), (2, 2), (2, 1), (3, 1), (1, 3), (2, 3), (3, 2)]
-THEMES = ("three-hosts", "gpu", "serde", "wide-gpu", "chain", "many-pos", "nd-replicated")
+THEMES = ("three-hosts", "four-hosts", "gpu", "serde", "wide-gpu", "chain", "many-pos", "nd-replicated", "big-values", "slow-bodies", "zero-length")
 
 
 def gen_spec(rng, dense=False, theme=None):
@@ -376,7 +476,9 @@ def gen_spec(rng, dense=False, theme=None):
     edges from different tasks, >=2 workers in total), every sink task's outputs requested.
     `theme`: three-hosts (3 hosts x 1-3 workers) | gpu (CASCADE_GPU_COUNT set, some tasks need a GPU) | serde (the job
     registers a custom serde, Box / ndarray / bytes values) | wide-gpu (1 host x 11-13 GPU workers, one GPU task for each)
-    | chain (a linear chain on one host: every intermediate is purged while later tasks still run).
+    | chain (a linear chain on one host: every intermediate is purged while later tasks still run) | four-hosts (4 hosts x 1-2
+    workers, 3*workers+1.. sources) | many-pos | nd-replicated | big-values (values of 64 KiB .. 2 MiB) | slow-bodies (bodies that
+    take 0.2-1.5 s) -- see _gen_manypos, _gen_ndrep, _gen_big, _gen_slow.
     Independently of the theme any job may draw GPU needs, rich values and the serde with a small probability."""
     if theme == "wide-gpu":
         return _gen_wide(rng)
@@ -386,13 +488,20 @@ def gen_spec(rng, dense=False, theme=None):
         return _gen_manypos(rng)
     if theme == "nd-replicated":
         return _gen_ndrep(rng)
+    if theme == "big-values":
+        return _gen_big(rng)
+    if theme == "slow-bodies":
+        return _gen_slow(rng)
+    if theme == "zero-length":
+        return _gen_zero(rng)
     three = theme == "three-hosts"
+    four = theme == "four-hosts"
     if dense:
-        hosts, workers = rng.choice(SHAPES_3H if three else SHAPES_DENSE)
+        hosts, workers = rng.choice(SHAPES_4H if four else SHAPES_3H if three else SHAPES_DENSE)
         n = 0                             # set below, from the number of forced sources
     else:
         n = rng.choice([2, 3, 3, 4, 4, 5, 5, 6, 6])
-        hosts, workers = rng.choice(SHAPES_3H if three else SHAPES_ANY)
+        hosts, workers = rng.choice(SHAPES_4H if four else SHAPES_3H if three else SHAPES_ANY)
     serdes = theme == "serde" or rng.random() < 0.25
     rich = theme == "serde" or rng.random() < 0.3
     gpus = None
@@ -406,8 +515,12 @@ def gen_spec(rng, dense=False, theme=None):
     # one host's workers take every source of a component they can: a second host joins in (and inter-host transfers happen)
     # only when more tasks are computable at once than one host has workers -> workers + 1 sources on several hosts
     nsrc = max(2, min(workers + 1, 4)) if hosts > 1 else 2
+    if four:
+        nsrc = 3 * workers + 1 + rng.choice([0, 1])       # more sources at once than THREE hosts have workers: the fourth host joins in
     if dense:
         n = nsrc + rng.choice([2, 3, 4] if nsrc < 4 else [2, 3])
+    elif four:
+        n = nsrc + rng.choice([2, 3])
     perm = list(range(n))
     rng.shuffle(perm)                     # topological order != order of the names
     names = [f"t{p}" for p in perm]
@@ -549,6 +662,109 @@ def _gen_ndrep(rng):
     return {"tasks": tasks, "ext": ext, "hosts": hosts, "workers": 1, "theme": "nd-replicated"}
 
 
+def _gen_big(rng):
+    """The value-SIZE class: every value of the job is a `bytes` or an ndarray of 64 KiB .. 2 MiB (everything else in this module
+    stays below ~1 KiB) -- but for the first source, whose value has 8 .. 24 MiB (more than a socket buffer holds).
+    2-3 hosts x 1 worker, one big source per host (bytes and arrays alternate; all requested: fetched by
+    the controller), joins that each consume two sources placed on different hosts (the big value travels host-to-host and is
+    then held by two hosts: replicated) and return a big value again (requested too) or a short string over the digests of what
+    they were given; one source is consumed by two joins (the same big dataset transferred / read more than once)."""
+    hosts = rng.choice([2, 2, 3])
+    ns = hosts + rng.choice([0, 1])
+    kinds = ["bigbytes", "bignd"]
+    rng.shuffle(kinds)
+    tasks, up = [], []
+    for i in range(ns):
+        t = {"name": f"b{i}", "ret": kinds[i % 2] if i else rng.choice(["hugebytes", "hugend"]), "outs": [DEFAULT_OUT], "params": [{"n": "k", "kind": "def", "default": rng.randint(0, 99)}], "bind": []}
+        if rng.random() < 0.5:
+            t["bind"].append({"val": rng.randint(100, 199), "p": "k", "how": "kw"})
+        tasks.append(t)
+        up.append([t["name"], DEFAULT_OUT])
+    nj = rng.choice([2, 3])
+    jk = ["bigbytes", "bignd", "str"]
+    rng.shuffle(jk)
+    for j in range(nj):
+        x, y = up[j % ns], up[(j + 1) % ns]
+        if j % 2:
+            x, y = y, x
+        how_y = rng.choice(["pos", "kw"])
+        tasks.append({"name": f"w{j}", "ret": jk[j], "outs": [DEFAULT_OUT],
+                      "params": [{"n": "a", "kind": "pos"}, {"n": "b", "kind": "pos"}],
+                      "bind": [{"src": x, "p": "a", "how": "pos", "idx": 0}, dict({"src": y, "p": "b", "how": how_y}, **({"idx": 1} if how_y == "pos" else {}))]})
+    ext = [list(d) for d in up] + [[f"w{j}", DEFAULT_OUT] for j in range(nj)]
+    rng.shuffle(ext)
+    return {"tasks": tasks, "ext": ext, "hosts": hosts, "workers": 1, "theme": "big-values"}
+
+
+def _gen_zero(rng):
+    """The ZERO-LENGTH class: task results without a byte / an element -- b"", "", (), [], np.zeros(0), an array of shape (0, 3) -- and
+    a 0-d array, each REQUESTED by the caller and CONSUMED on another host: 2-3 hosts x 1 worker, 3-5 sources with distinct such
+    results (the first one a 2-output generator of two of them), as many joins as source outputs, each over two of them, that return the rendering of what
+    they were given (type, dtype and shape are part of it) or a zero-length value again; everything requested. A store / transport
+    that cannot hold 0 bytes, a `if value:` instead of `is not None`, a truth value of an empty array meet their input here."""
+    hosts = rng.choice([2, 2, 3])
+    ns = rng.choice([3, 4, 5])
+    kinds = list(ZERO_KINDS)
+    rng.shuffle(kinds)
+    if "zbytes" not in kinds[:ns + 1]:
+        kinds[rng.randrange(ns + 1)] = "zbytes"
+    tasks, up = [], []
+    for i in range(ns):
+        t = {"name": f"z{i}", "ret": kinds[i], "outs": [DEFAULT_OUT], "params": [{"n": "k", "kind": "def", "default": rng.randint(0, 99)}], "bind": []}
+        if i == 0:
+            t["outs"] = list(rng.choice(OUT_NAMES[2]))
+            t["rets"] = [kinds[0], kinds[ns]]           # a generator: one zero-length kind per output
+        tasks.append(t)
+        up += [[t["name"], o] for o in t["outs"]]
+    nj = len(up)                                   # every source output is consumed (twice: as `a` of one join, as `b` of another)
+    jr = ["str", "tuple"] + [rng.choice(ZERO_KINDS + ("str",)) for _ in range(nj - 2)]
+    rng.shuffle(jr)
+    for j in range(nj):
+        x, y = up[j % len(up)], up[(j + 2) % len(up)]
+        if j % 2:
+            x, y = y, x
+        how_y = rng.choice(["pos", "kw"])
+        tasks.append({"name": f"y{j}", "ret": jr[j], "outs": [DEFAULT_OUT],
+                      "params": [{"n": "a", "kind": "pos"}, {"n": "b", "kind": "pos"}],
+                      "bind": [{"src": x, "p": "a", "how": "pos", "idx": 0}, dict({"src": y, "p": "b", "how": how_y}, **({"idx": 1} if how_y == "pos" else {}))]})
+    ext = [list(d) for d in up] + [[f"y{j}", DEFAULT_OUT] for j in range(nj)]
+    rng.shuffle(ext)
+    return {"tasks": tasks, "ext": ext, "hosts": hosts, "workers": 1, "theme": "zero-length"}
+
+
+def _gen_slow(rng):
+    """The body-DURATION class: every task body takes 0.2-1.5 s of wall clock in its worker (time.sleep inside the body; every
+    other family's bodies return at once), so that tasks are still running while the executors' heartbeats, the Bridge's resend /
+    grace timers and the 1 s linger of the worker -> executor sockets come due, results arrive seconds apart, and hosts idle
+    while others work. 2 hosts x 1-2 workers, workers+1 sources, 2-3 joins over two sources each, one tail; the longest path
+    sleeps <= 3.5 s."""
+    hosts, workers = rng.choice([(2, 1), (2, 2), (2, 1), (3, 1)])
+    ns = workers + 1 + rng.choice([0, 1])
+    rets = ("int", "str", "tuple", "nd", "bytes")
+
+    def nap(lo, hi):
+        return round(rng.uniform(lo, hi), 2)
+    tasks, up = [], []
+    for i in range(ns):
+        t = _gen_task(rng, f"s{i}", [], {}, "src", rets)
+        t["sleep"] = nap(0.2, 1.5)
+        tasks.append(t)
+        up.append([t["name"], rng.choice(t["outs"])])
+    nj = rng.choice([2, 3])
+    for j in range(nj):
+        x, y = up[j % ns], up[(j + 1) % ns]
+        how_y = rng.choice(["pos", "kw"])
+        tasks.append({"name": f"m{j}", "ret": rng.choice(rets), "outs": [DEFAULT_OUT], "sleep": nap(0.2, 1.2),
+                      "params": [{"n": "a", "kind": "pos"}, {"n": "b", "kind": "pos"}],
+                      "bind": [{"src": x, "p": "a", "how": "pos", "idx": 0}, dict({"src": y, "p": "b", "how": how_y}, **({"idx": 1} if how_y == "pos" else {}))]})
+    tasks.append({"name": "tail", "ret": rng.choice(rets), "outs": [DEFAULT_OUT], "sleep": nap(0.2, 0.8),
+                  "params": [{"n": f"p{j}", "kind": "pos"} for j in range(nj)],
+                  "bind": [{"src": [f"m{j}", DEFAULT_OUT], "p": f"p{j}", "how": "pos", "idx": j} for j in range(nj)]})
+    ext = [["tail", DEFAULT_OUT]] + [list(d) for d in up if rng.random() < 0.5] + [[f"m{j}", DEFAULT_OUT] for j in range(nj) if rng.random() < 0.4]
+    rng.shuffle(ext)
+    return {"tasks": tasks, "ext": ext, "hosts": hosts, "workers": workers, "theme": "slow-bodies"}
+
+
 def ambiguate(spec, rng):
     """Rename two tasks and one output of each so that task-name + output-name of two DIFFERENT datasets is the same
     string ("q"+"xy" == "qx"+"y"): every per-dataset key the implementation derives from the two names must still differ."""
@@ -622,6 +838,22 @@ def features(spec):
             f.add("value-nd-with-2-or-more-elements")
             if [t["name"]] in [e[:1] for e in spec["ext"]] and any("src" in b and tuple(b["src"])[0] == t["name"] for u in spec["tasks"] for b in u["bind"]):
                 f.add("requested-nd-value-consumed-downstream")
+        if t["ret"] in ("hugebytes", "hugend"):
+            f.add("value-8MiB..24MiB")
+            f.add("value-" + t["ret"])
+        if t["ret"] in ("bigbytes", "bignd"):
+            f.add("value-64KiB..2MiB")
+            f.add("value-" + t["ret"])
+            if [t["name"]] in [e[:1] for e in spec["ext"]]:
+                f.add("value-64KiB..2MiB-requested")
+            if any("src" in b and tuple(b["src"])[0] == t["name"] for u in spec["tasks"] for b in u["bind"]):
+                f.add("value-64KiB..2MiB-consumed-downstream")
+        for r in (t.get("rets") or [t["ret"]]):
+            if r in ZERO_KINDS:
+                f.add("value-zero-length" if r != "nd0" else "value-nd-0-d")
+                f.add("value-" + r)
+        if t.get("sleep"):
+            f.add("body-takes-0.2-1.5s")
         if t["ret"] in ("nd", "bytes", "box", "tbox"):
             f.add("value-" + t["ret"])
             if any("src" in b and tuple(b["src"])[0] == t["name"] for u in spec["tasks"] for b in u["bind"]):
@@ -655,15 +887,17 @@ def func_source(t):
         sig.append(p["n"] if "default" not in p else f"{p['n']}={_dec_static(p['default'])!r}")
     bound = "[" + ", ".join(f"({p['n']!r}, {p['n']})" for p in t["params"]) + "]"
     ann = {"int": " -> int", "str": " -> str", "tuple": " -> tuple", "bytes": " -> bytes"}.get(t["ret"], "") if len(t["outs"]) == 1 else ""
+    nap = f"    _nap({float(t['sleep'])!r})\n" if t.get("sleep") else ""
     if len(t["outs"]) == 1:
-        body = f"    _trace({t['name']!r})\n    return _val({t['ret']!r}, {t['name']!r}, 0, {bound})\n"
+        body = f"    _trace({t['name']!r})\n{nap}    return _val({t['ret']!r}, {t['name']!r}, 0, {bound})\n"
     else:
-        body = f"    _trace({t['name']!r})\n    _b = {bound}\n    for _i in range({len(t['outs'])}):\n        yield _val({t['ret']!r}, {t['name']!r}, _i, _b)\n"
+        rets = t.get("rets") or [t["ret"]] * len(t["outs"])
+        body = f"    _trace({t['name']!r})\n{nap}    _b = {bound}\n    for _i, _r in enumerate({list(rets)!r}):\n        yield _val(_r, {t['name']!r}, _i, _b)\n"
     return f"def f({', '.join(sig)}){ann}:\n{body}"
 
 
 def make_func(t):
-    g = {"__name__": "c01_generated", "_val": _val, "_trace": _trace}
+    g = {"__name__": "c01_generated", "_val": _val, "_trace": _trace, "_nap": _nap}
     exec(func_source(t), g)
     return g["f"]
 
@@ -763,6 +997,46 @@ def _launch_executor(job, controller_address, workers, port_base, host, pidq):
     ex.recv_loop()
 
 
+INFRA_ERRNOS = ("EAGAIN", "ENOMEM", "EMFILE", "ENFILE", "EADDRINUSE", "EADDRNOTAVAIL", "ENOSPC", "ENOBUFS", "EINTR")
+REPO_STEPS = ("import", "make_job", "precompute", "bridge", "environment")     # set-up steps that run code of the tree under test in the runner itself
+
+
+def _repo_src():
+    """<clone>/src of the tree under test, as the runner imports it"""
+    try:
+        import cascade
+        return os.path.dirname(os.path.dirname(os.path.realpath(cascade.__file__)))
+    except Exception:
+        return None
+
+
+def _setup_exc_info(e, step):
+    """An exception that ended the runner's SET-UP phase -> what decides whether it is a verdict about the tree or trouble of
+    the machine: the step, the Python frames of its traceback that lie under <clone>/src, where it was raised, and whether its
+    type / errno is one that the machine produces (cannot fork, no memory / descriptors / port, a time-out of the harness)."""
+    import errno as _errno
+    import queue
+    import traceback
+    root = _repo_src()
+    try:
+        frames = [(os.path.realpath(f.filename), f.lineno, f.name) for f in traceback.extract_tb(e.__traceback__)]
+    except Exception:
+        frames = []
+    here = os.path.realpath(__file__)
+    rel = [(fn[len(root) + 1:] if root and fn.startswith(root + os.sep) else fn, ln, name) for fn, ln, name in frames]
+    in_repo = [f"{r[0]}:{r[1]} in {r[2]}" for r, f in zip(rel, frames) if root and f[0].startswith(root + os.sep)]
+    site = f"{rel[-1][0]}:{rel[-1][1]} in {rel[-1][2]}" if rel else "?"
+    en = getattr(e, "errno", None)
+    ename = _errno.errorcode.get(en, str(en)) if isinstance(en, int) else None
+    machine = (isinstance(e, (queue.Empty, MemoryError, KeyboardInterrupt, SystemExit, TimeoutError))
+               or (isinstance(e, OSError) and ename in INFRA_ERRNOS)
+               or (type(e).__name__ == "ZMQError" and ename in INFRA_ERRNOS)
+               or (isinstance(e, RuntimeError) and str(e).startswith("start-up:") and bool(frames) and frames[-1][0] == here))
+    return {"step": step, "type": type(e).__name__, "errno": ename, "machine": bool(machine), "in_repo": in_repo[-6:], "site": site,
+            "site_in_repo": bool(frames) and bool(root) and frames[-1][0].startswith(root + os.sep),
+            "tail": [f"{r[0]}:{r[1]} in {r[2]}" for r in rel[-4:]]}
+
+
 def runner_main(case):
     """Runs in the subprocess (`python -m ekw.c01_real <case json>`): executors (fork), Bridge, controller.impl.run."""
     import logging
@@ -777,6 +1051,13 @@ def runner_main(case):
     out = {"ended": None, "error": None, "outputs": {}, "phase": "setup"}
     spec = case["spec"]
     TRACE_DIR = case.get("trace")
+    try:
+        # the processes of the cluster (they mostly wait) are scheduled before the machine's batch work when the check may ask for
+        # that: below the executor a message that is not handed over within 1 s is lost (comms.callback), and a machine with several
+        # runnable processes per core starves a process for longer than that
+        os.setpriority(os.PRIO_PROCESS, 0, RUNNER_NICE)
+    except (OSError, AttributeError):
+        pass
 
     startup_s = float(case.get("startup_s") or STARTUP_S)
     job_s = float(case.get("job_s") or JOB_S)
@@ -796,11 +1077,15 @@ def runner_main(case):
             os.environ["CASCADE_GPU_COUNT"] = str(spec["gpus"])      # read by every Executor at construction
         else:
             os.environ.pop("CASCADE_GPU_COUNT", None)
+        out["step"] = "import"
         from cascade.controller.impl import run
         from cascade.executor.bridge import Bridge
         from cascade.scheduler.graph import precompute
+        out["step"] = "make_job"
         job, _ = make_job(spec)
+        out["step"] = "precompute"
         pre = precompute(job)
+        out["step"] = "fork-executors"
         port, uid = case["port"], case["uid"]
         c = f"tcp://localhost:{port}"
         ctx = get_context("fork")
@@ -809,9 +1094,11 @@ def runner_main(case):
         for i, h in enumerate(hosts):
             ctx.Process(target=_launch_executor, args=(job, c, spec["workers"], port + 1 + i * 10, h, pidq)).start()
         pids = {}
+        out["step"] = "wait-executors"
         for _ in hosts:
             h, d = pidq.get(timeout=startup_s)
             pids[h] = d
+        out["step"] = "data-servers"
         # START-UP gate (as in ekw.c05_cluster): every host's data server listens before the job starts, so that a hang seen
         # after the first task body was entered is never excused as the fork-with-threads start-up deadlock
         for h, d in pids.items():
@@ -827,11 +1114,14 @@ def runner_main(case):
                         time.sleep(0.1)
                 if not ok:
                     raise RuntimeError(f"start-up: data server of {h} is not listening on {addr}")
-        out["phase"] = "bridge"
+        out["phase"] = out["step"] = "bridge"
         bridge = Bridge(c, len(hosts))
+        out["step"] = "environment"
+        env_workers = bridge.get_environment().workers
+        out["step"] = "wrap"
         try:
             with open(os.path.join(TRACE_DIR, "env.json"), "w") as f:
-                json.dump({repr(w): {"gpu": v.gpu, "cpu": v.cpu} for w, v in bridge.get_environment().workers.items()}, f)
+                json.dump({repr(w): {"gpu": v.gpu, "cpu": v.cpu} for w, v in env_workers.items()}, f)
         except Exception:
             pass
 
@@ -881,8 +1171,15 @@ def runner_main(case):
         wd2.daemon = True
         wd2.start()
     except BaseException as e:
+        # not every exception of the set-up phase is trouble of the machine: make_job / precompute / Bridge(...) are code of the
+        # tree under test. What was raised where travels to the check process (run_real decides)
+        wd.cancel()
         out["ended"] = "infra"
-        out["error"] = f"{type(e).__name__}: {e}"
+        out["error"] = f"{type(e).__name__}: {str(e)[:300]}"
+        try:
+            out["outputs"] = {"values": {}, "setup": _setup_exc_info(e, out.get("step"))}
+        except BaseException:
+            pass
         cl._emit(out)
         os._exit(0)
     t1 = time.time()
@@ -906,6 +1203,42 @@ def runner_main(case):
 _start_lock = threading.Lock()
 
 
+class _Gate:
+    """First runs of a batch go on side by side (shared); a DECIDING run goes on alone (exclusive): it waits until the runs under
+    way have ended and keeps new ones from starting, so that the check does not starve the run that decides a hang verdict."""
+
+    def __init__(self):
+        self.c = threading.Condition()
+        self.shared, self.excl, self.waiting = 0, False, 0
+
+    def acquire(self, exclusive):
+        with self.c:
+            if exclusive:
+                self.waiting += 1
+                while self.excl or self.shared:
+                    self.c.wait(1.0)
+                self.waiting -= 1
+                self.excl = True
+            else:
+                # side by side: three clusters on a machine that has cores to spare, two when it has more runnable processes than
+                # cores, one when it has more than twice as many (seen at 2.5-3.5 per core: three healthy runs side by side each
+                # took more than 75 s in controller.impl.run, the same cases 2-10 s alone)
+                while self.excl or self.waiting or self.shared >= (3 if (ld := machine_load()) <= 1.0 else 2 if ld <= 2.0 else 1):
+                    self.c.wait(1.0)
+                self.shared += 1
+
+    def release(self, exclusive):
+        with self.c:
+            if exclusive:
+                self.excl = False
+            else:
+                self.shared -= 1
+            self.c.notify_all()
+
+
+_gate = _Gate()
+
+
 def _ncpu():
     try:
         return len(os.sched_getaffinity(0)) or 1
@@ -921,21 +1254,29 @@ def machine_load():
         return 0.0
 
 
+_calm = {"gave_up_at": 0.0}
+
+
 def wait_for_calm(max_s=CALM_WAIT_S):
     """Re-runs that decide a hang verdict start when the machine is not oversubscribed (the 1-minute load is below the number of
-    cores), or after max_s. Returns the seconds waited."""
+    cores), or after max_s -- after 20 s when such a wait has run out within the last ten minutes (a machine that did not calm down in
+    three minutes will not in the next three; the verdict rule for a loaded machine applies then). Returns the seconds waited."""
     t = time.time()
+    if t - _calm["gave_up_at"] < 600.0:
+        max_s = min(max_s, 20.0)
     while machine_load() > 0.9 and time.time() - t < max_s:
         time.sleep(5.0)
+    if machine_load() > 0.9:
+        _calm["gave_up_at"] = time.time()
     return round(time.time() - t, 1)
 
 
-def run_real(spec, deadline_s=DEADLINE_S, settle_s=1.5, job_s=JOB_S):
+def run_real(spec, deadline_s=DEADLINE_S, settle_s=1.5, job_s=JOB_S, exclusive=False):
     """One real run. Returns c05_cluster's observation dict (ended: ok|error|hang) + "trace" (read_trace) + "stats" +
     "job_started" (a task body was entered). Infrastructure trouble raises InfraError."""
     from ekw import c05_cluster as cl
     from ekw.core import InfraError
-    obs, startup_fail = None, []
+    obs, startup_fail, machine_fail = None, [], []
     # patience grows with the attempt: a cluster of 11-13 forked workers needs > 20 s of wall clock when the machine is
     # loaded well beyond its cores (seen: load 20 on 16 cores, three attempts of 20 s each all too short on a healthy tree);
     # a cluster that really cannot come up does not come up in 160 s either
@@ -945,14 +1286,18 @@ def run_real(spec, deadline_s=DEADLINE_S, settle_s=1.5, job_s=JOB_S):
             # run ids / port ranges of c05_cluster derive from (pid, millisecond, call counter): starts of concurrent runs are spaced
             _start_lock.acquire()
             threading.Timer(0.12, _start_lock.release).start()
+            _gate.acquire(exclusive)
             try:
                 load0 = round(machine_load(), 2)
                 obs = cl.run_case({"spec": spec, "trace": tdir, "startup_s": startup_s, "job_s": job_s},
                                   deadline_s=deadline_s + (startup_s - STARTUP_S) + (job_s - JOB_S), settle_s=settle_s, module=MOD)
                 obs["load_per_core"] = [load0, round(machine_load(), 2)]
                 obs["job_s"] = job_s
+                obs["alone"] = bool(exclusive)
             except (OSError, RuntimeError) as e:          # cannot fork / no free port range
                 raise InfraError(f"real-cluster run could not be started: {type(e).__name__}: {e}")
+            finally:
+                _gate.release(exclusive)
             tr = read_trace(tdir)
         finally:
             shutil.rmtree(tdir, ignore_errors=True)
@@ -962,12 +1307,28 @@ def run_real(spec, deadline_s=DEADLINE_S, settle_s=1.5, job_s=JOB_S):
         if obs["ended"] != "infra":
             obs["startup_retries"] = len(startup_fail)
             return obs
+        su = (obs.get("outputs") or {}).get("setup") if isinstance(obs.get("outputs"), dict) else None
+        if su and not su.get("machine"):
+            # the set-up phase ended with an exception that no machine trouble explains (a KeyError out of precompute, a TypeError
+            # out of Bridge.__init__, an AttributeError of the harness on the tree's builders ...): a result of running the tree's
+            # code on this case -- ended "error", where "set-up" -- which check_case confirms by running the case once more
+            obs.update(ended="error", where="set-up", setup=su, startup_retries=len(startup_fail))
+            return obs
+        if su:
+            machine_fail.append(su)
         if str(obs.get("error") or "").startswith("start-up:"):
             startup_fail.append(f"{obs['error']}; executors that registered their workers: {sorted(tr['execs'])}")
         time.sleep(0.5)
     if len(startup_fail) == len(STARTUP_LADDER):
         # the cluster never came up, four times in a row with growing patience: that is a verdict (e.g. address collisions that only some shapes have)
         obs.update(ended="hang", startup_never=True, error=" || ".join(startup_fail), startup_retries=len(startup_fail))
+        return obs
+    if (len(machine_fail) == len(STARTUP_LADDER) and all(m.get("in_repo") for m in machine_fail)
+            and len({(m.get("type"), m.get("errno"), m.get("step"), tuple(m.get("in_repo") or ())) for m in machine_fail}) == 1):
+        # an exception of a kind the machine can produce (errno EADDRINUSE, EMFILE, ...), but raised below the SAME frames of the
+        # tree in every one of the attempts, each with a fresh port range and run id: the tree asks for something it cannot have
+        su = dict(machine_fail[-1], every_attempt=len(machine_fail))
+        obs.update(ended="error", where="set-up", setup=su, startup_retries=len(startup_fail))
         return obs
     raise InfraError(f"real-cluster run could not be set up ({len(STARTUP_LADDER)} attempts): {obs.get('error')}")
 
@@ -1139,6 +1500,11 @@ def judge(spec, ref, obs):
         v.append(("real-cluster-hang", f"the cluster of {shape} did not come up in {len(STARTUP_LADDER)} attempts of {_LADDER_TXT} s: {obs.get('error')}"))
     elif obs["ended"] == "hang":
         v.append(("real-cluster-hang", f"run on {shape}: controller.impl.run did not return within {obs.get('job_s') or JOB_S:.0f} s of its start (cluster start-up took {obs.get('t_setup')} s; {_progress(spec, obs)})"))
+    elif obs["ended"] == "error" and obs.get("where") == "set-up":
+        su = obs.get("setup") or {}
+        v.append(("real-cluster-error", f"setting up the run on {shape} raised {obs.get('error')} in step {su.get('step')} (raised at {su.get('site')}; frames of the tree under test below it: "
+                                        f"{su.get('in_repo') or 'none'}" + (f"; errno {su.get('errno')}, the same in each of {su.get('every_attempt')} attempts with fresh ports" if su.get("every_attempt") else "")
+                                        + ") although the job builds and evaluates sequentially: no task was dispatched"))
     elif obs["ended"] == "error":
         v.append(("real-cluster-error", f"run on {shape} raised {obs.get('error')} although no task fails under sequential evaluation ({_progress(spec, obs)})"))
     else:
@@ -1154,83 +1520,157 @@ def judge(spec, ref, obs):
 
 
 def summary(obs):
-    return dict({k: obs.get(k) for k in ("ended", "error", "t_setup", "t_run", "wall", "job_started", "alive_at_deadline", "stats", "trace_info", "load_per_core", "job_s")},
+    return dict({k: obs.get(k) for k in ("ended", "error", "t_setup", "t_run", "wall", "job_started", "alive_at_deadline", "stats", "trace_info", "load_per_core", "job_s", "alone", "where", "setup", "startup_retries")},
                 delivered=sorted(((obs.get("outputs") or {}).get("values") or {})))
 
 
-def check_case(spec, ref=None, deadline_s=DEADLINE_S, on_first=None):
+STARVATION_WORDS = ("heartbeat", "timeout", "timed out", "time out", "grace", "exited during", "did not return", "not up within", "temporarily unavailable",
+                    "connection", "eagain", "deadline")
+
+
+def _starvation_explains(kind, error):
+    """Can a machine that starves processes for seconds produce this verdict on a healthy tree? A hang: yes (the tree's local
+    messaging loses a message that is not handed over within 1 s). An error: only when its text speaks of a heartbeat, a time-out,
+    a grace period or a connection; an exception object raised inside the tree's code and reported up (TaskFailure(... detail=
+    'TypeError(...)'), DatasetTransmitFailure(... -> BufferError(...)), KeyError ...) is not made by a slow machine."""
+    if kind != "real-cluster-error":
+        return True
+    t = str(error or "").lower()
+    return (not t) or any(w in t for w in STARVATION_WORDS)
+
+
+def check_case(spec, ref=None, deadline_s=DEADLINE_S, on_first=None, confirm=True):
     """run + judge -> (obs, [verdict dict(kind, what, sig)], runs | None).
-    Wrong / missing values and the trace verdicts always count (one witness is enough). A hang / error verdict:
-      * shows again on an immediate re-run of the same case                     -> reported;
-      * does not show again, but the job HAD STARTED in the failing run (the cluster had passed the start-up gate and a
-        task body had been entered)                                             -> reported with "reproduced": false
-                                                                                    and both runs in the replay -- unless the
-        machine was oversubscribed around the first run (1-minute load > cores) and a third run is clean too: dropped, counted;
-      * does not show again and no task body had been entered                   -> dropped (counted): the fork-with-threads
-        deadlock at cluster start-up under heavy machine load is outside C01.
+    Wrong / missing values and the trace verdicts always count (one witness is enough). A hang / error verdict is decided by
+    further runs of the same case -- patient (3 x JOB_S), started when the machine is calm (or after CALM_WAIT_S), and alone (_gate):
+      * machine NOT loaded (load per core <= 1.0 around the first run and when the deciding run starts):
+          shows again in the second run                                         -> reported;
+          does not, but the job HAD STARTED in the failing run (a task body entered) -> reported with "reproduced": false;
+          does not, and no task body had been entered                            -> dropped (counted): the fork-with-threads
+                                                                                    deadlock at cluster start-up is outside C01;
+      * machine LOADED, and the verdict is one a starved machine can produce on a healthy tree (_starvation_explains: every hang; an
+        error that speaks of heartbeat / time-out / grace / connection): reported only when it shows in the second AND in a third
+        deciding run (a deterministic failure always reproduces; the tree's local messaging loses messages when a process is starved
+        for a second); clean in either -> dropped, counted. Any other error (an exception of the tree's code reported up) follows the
+        rules of the machine that is not loaded.
+    The loads and the summaries of all runs go into the replay record.
+    An exception out of the SET-UP of a run that is not of a kind the machine produces (run_real) is a real-cluster-error
+    where=set-up: reported when a second run raises the same type in the same step, or -- "reproduced": false -- when it was raised by
+    a line under <clone>/src or in make_job / precompute (no sockets, no processes); otherwise dropped and counted.
+    `confirm=False`: no deciding re-runs of a hang / error (the verdict carries "first_run_only").
     `on_first(kinds)` (used by Batch): called with the hang / error kinds of the first run; when it returns a number n > 0, n OTHER
     cases of the batch have shown the same kind in their first runs, which stands in for the re-run of this one."""
     if ref is None:
         ref = reference(spec)
-    obs = run_real(spec, deadline_s)
+    # a machine with more runnable processes than cores: the first run gets the patience of the deciding runs at once (a healthy run
+    # took 20-45 s in controller.impl.run at 2-3 processes per core, 0.3-6 s on a quiet machine; a deadlock does not end in 75 s either)
+    obs = run_real(spec, deadline_s, job_s=RERUN_JOB_S if machine_load() > 1.0 else JOB_S)
     vs = [{"kind": k, "what": w, "sig": {"kind": k}} for k, w in judge(spec, ref, obs)]
     runs = None
     bad = [x for x in vs if x["kind"] in ("real-cluster-hang", "real-cluster-error")]
     if bad and obs.get("startup_never"):
         for x in bad:
             x["sig"] = {"kind": x["kind"], "where": "start-up"}
+    elif bad and obs.get("where") == "set-up":
+        # an exception out of the tree's code while the run was set up (no machine trouble explains it, see run_real): run once
+        # more (fresh ports, fresh run id, same hash seed; no need to wait for a calm machine -- nothing here depends on timing)
+        su = obs.get("setup") or {}
+        obs2 = run_real(spec, deadline_s)
+        su2 = obs2.get("setup") or {}
+        runs = [summary(obs), summary(obs2)]
+        obs["second_run"] = runs[1]
+        again = obs2.get("where") == "set-up" and (su2.get("type"), su2.get("step")) == (su.get("type"), su.get("step"))
+        keep = [x for x in vs if x not in bad]
+        for x in bad:
+            if again:
+                x["sig"] = {"kind": x["kind"], "where": "set-up"}
+                x["what"] += " [the same exception in the same step on a second run with fresh ports and run id]"
+                keep.append(x)
+            elif su.get("site_in_repo") or su.get("step") in ("import", "make_job", "precompute"):
+                # raised by a line of the tree itself, or in a step that touches neither sockets nor processes
+                x["sig"] = {"kind": x["kind"], "where": "set-up", "reproduced": False}
+                x["what"] += f" [a second run of the same case ended {runs[1]['ended']}" + (f" ({runs[1]['error']})" if runs[1].get("error") else "") + "]"
+                keep.append(x)
+            else:
+                obs.setdefault("dropped", []).append(x["kind"] + "-in-set-up")
+        vs = keep + [{"kind": k, "what": w + " [seen in the second run of the case; its first run raised while it was set up]", "sig": {"kind": k}}
+                     for k, w in judge(spec, ref, obs2) if again is False and k not in ("real-cluster-hang", "real-cluster-error") and k not in {y["kind"] for y in keep}]
+    elif bad and not confirm:
+        # (Batch, after it has two failing inputs) first run only; finish_real decides what becomes of a hang / error seen once
+        for x in bad:
+            x["sig"] = {"kind": x["kind"], "first_run_only": True}
+            x["starvation"] = _starvation_explains(x["kind"], obs.get("error")) or not obs.get("job_started")
+        obs["unconfirmed"] = sorted({x["kind"] for x in bad})
     elif bad and on_first is not None and (n_other := on_first({x["kind"] for x in bad})) and max(obs.get("load_per_core") or [0.0]) <= 1.0:
         # (on an oversubscribed machine other cases' first runs prove nothing: the deciding runs below are made)
         for x in bad:
             x["what"] += f" [not run again: {n_other} other case(s) of this batch showed the same verdict in their first run]"
     elif bad:
-        # the deciding runs: on a calm machine (or after CALM_WAIT_S) and with three times the patience -- a starved process is
-        # slow, a deadlocked one stays deadlocked
+        # the deciding runs: on a calm machine (or after CALM_WAIT_S), with three times the patience -- a starved process is slow, a
+        # deadlocked one stays deadlocked -- and ALONE: no other real run of this check goes on meanwhile (_gate)
         waited = wait_for_calm()
-        obs2 = run_real(spec, deadline_s, job_s=RERUN_JOB_S)
+        load_decide = round(machine_load(), 2)
+        # more runnable processes than cores around the FIRST run, or still when the deciding run starts
+        loaded = max(obs.get("load_per_core") or [0.0]) > 1.0 or load_decide > 1.0
+        obs2 = run_real(spec, deadline_s, job_s=RERUN_JOB_S, exclusive=True)
         kinds2 = {k for k, _ in judge(spec, ref, obs2)}
         runs = [summary(obs), summary(obs2)]
         obs["second_run"] = runs[1]
         obs["calm_wait_s"] = waited
-        loaded = max(obs.get("load_per_core") or [0.0]) > 1.0       # more runnable processes than cores around the FIRST run
+        obs["loads"] = {"first_run": obs.get("load_per_core"), "calm_wait_s": waited, "at_second_run": load_decide, "loaded": loaded}
         kinds3 = None
         keep = []
         for x in vs:
-            if x not in bad or x["kind"] in kinds2:
+            if x not in bad:
                 keep.append(x)
-            elif obs.get("job_started"):
-                # seen once after the job had started, not seen on the patient re-run. On a machine that was not oversubscribed
-                # that is reported as it stands; on an oversubscribed one (messages between local processes are sent with a
-                # 1 s linger and no acknowledgement: comms.callback) a third run decides
-                if loaded and kinds3 is None:
+            elif loaded and _starvation_explains(x["kind"], obs.get("error")):
+                # oversubscribed machine: the tree's local messaging (comms.callback: fresh PUSH socket per message, 1 s linger, no
+                # acknowledgement) loses a message when a process is starved for a second, so a healthy tree hangs with noticeable
+                # probability per run. A deterministic failure shows in EVERY run: reported only when it shows in the patient second run
+                # AND in a patient third one; clean in either -> dropped and counted
+                if x["kind"] in kinds2 and kinds3 is None:
                     wait_for_calm()
-                    obs3 = run_real(spec, deadline_s, job_s=RERUN_JOB_S)
+                    obs["loads"]["at_third_run"] = round(machine_load(), 2)
+                    obs3 = run_real(spec, deadline_s, job_s=RERUN_JOB_S, exclusive=True)
                     kinds3 = {k for k, _ in judge(spec, ref, obs3)}
                     runs.append(summary(obs3))
-                if loaded and x["kind"] not in kinds3:
+                if x["kind"] in kinds2 and x["kind"] in kinds3:
+                    x["what"] += " [machine oversubscribed; the verdict showed again in both patient deciding runs, made while no other run of this check was going on]"
+                    keep.append(x)
+                else:
                     obs.setdefault("dropped_under_load", []).append(x["kind"])
-                    continue
+            elif x["kind"] in kinds2:
+                keep.append(x)
+            elif obs.get("job_started"):
+                # machine not oversubscribed -- or an error that a slow machine does not explain (an exception raised inside a worker, a
+                # data server or the controller and reported as such: TaskFailure / DatasetTransmitFailure with the exception in its
+                # detail, a KeyError of the controller ...); seen once after the job had started, not seen on the patient re-run:
+                # reported as it stands
                 x["sig"] = {"kind": x["kind"], "reproduced": False}
-                x["what"] += f" [the job HAD started; the immediate re-run of the same case ended {runs[1]['ended']}" + (f" ({runs[1]['error']})" if runs[1].get("error") else "") + "]"
+                if loaded:
+                    x["what"] += " [machine oversubscribed, but the error is an exception of the tree's code that starvation does not explain]"
+                x["what"] += f" [the job HAD started; the re-run of the same case ended {runs[1]['ended']}" + (f" ({runs[1]['error']})" if runs[1].get("error") else "") + "]"
                 keep.append(x)
             else:
                 obs.setdefault("dropped", []).append(x["kind"])
         vs = keep
+    if runs is not None:
+        obs.setdefault("loads", {"first_run": obs.get("load_per_core")})
     return obs, vs, runs
 
 
 # ----- the batch of runs of one check: planned from one seed, executed by a few threads while the check goes on
 
 def plan(seed, quick):
-    """-> [(seed_i, spec)]: the quick tier runs one case of every family; the thorough tier 48 cases."""
+    """-> [(seed_i, spec)]: the quick tier runs one case of every family (13); the thorough tier 59 cases (incl. two on 4 hosts)."""
     rng = random.Random(seed)
     if quick:
         fam = [("dense", None), ("dense+ambiguous", None), ("dense", "three-hosts"), ("dense", "gpu"), ("dense", "serde"), ("any", "wide-gpu"), ("any", "chain"), ("any", None),
-               ("any", "many-pos"), ("any", "nd-replicated")]
+               ("any", "many-pos"), ("any", "nd-replicated"), ("any", "big-values"), ("any", "slow-bodies"), ("any", "zero-length")]
     else:
         cyc = [("dense", None), ("dense+ambiguous", None), ("dense", "three-hosts"), ("dense", "gpu"), ("dense", "serde"), ("any", "chain"), ("any", None), ("any", "three-hosts"),
                ("dense", None), ("any+ambiguous", None), ("any", "gpu"), ("any", "serde")]
-        fam = [cyc[i % len(cyc)] for i in range(40)] + [("any", "wide-gpu"), ("any", "wide-gpu")] + [("any", "many-pos"), ("any", "nd-replicated")] * 3
+        fam = [cyc[i % len(cyc)] for i in range(40)] + [("any", "wide-gpu"), ("any", "wide-gpu")] + [("any", "many-pos"), ("any", "nd-replicated")] * 3 + [("any", "big-values"), ("any", "slow-bodies"), ("any", "zero-length")] * 3 + [("dense", "four-hosts"), ("any", "four-hosts")]
     out = []
     for kind, theme in fam:
         s = rng.randrange(1 << 30)
@@ -1260,7 +1700,7 @@ class Batch:
                 self.refs.append((True, reference(spec)))
             except Exception as e:
                 self.refs.append((False, f"{type(e).__name__}: {str(e)[:300]}"))
-        self.results = {}                         # index -> (ref, obs, verdicts, runs) | ("build-error", text) | ("skipped",) | ("crash", exc)
+        self.results = {}                         # index -> (ref, obs, verdicts, runs) | ("build-error", text) | ("crash", exc)
         self._next = 0
         self.first_bad = {}                       # index -> hang / error kinds its first run showed
         self._lock = threading.Lock()
@@ -1278,9 +1718,6 @@ class Batch:
             if i >= len(self.items):
                 self.t_done = time.time()
                 return
-            if self.stop.is_set():
-                self.results[i] = ("skipped",)
-                continue
             seed, spec = self.items[i]
             try:
                 ok, ref = self.refs[i]
@@ -1292,9 +1729,14 @@ class Batch:
                         self.first_bad[i] = set(kinds)
                         n_other = sum(1 for j, k in self.first_bad.items() if j != i and k & set(kinds))
                         if len(self.first_bad) >= 2:
-                            self.stop.set()       # two cases with a hang / error in their first run: no further case is started
+                            self.stop.set()       # two cases with a hang / error in their first run: the cases started from now on get their first run only
                     return n_other
-                obs, vs, runs = check_case(spec, ref, on_first=on_first)
+                # no family is skipped because others failed (one broken thing must not hide a second): after two failing inputs the
+                # remaining cases still run, once each; what a hang / error seen in such a single run is worth is decided in finish_real
+                first_only = self.stop.is_set()
+                obs, vs, runs = check_case(spec, ref, on_first=on_first, confirm=not first_only)
+                if first_only:
+                    obs["first_run_only"] = True
                 self.results[i] = (ref, obs, vs, runs)
             except BaseException as e:            # InfraError included: re-raised in the check's own thread
                 self.results[i] = ("crash", e)
@@ -1312,7 +1754,7 @@ def start_real(ctx, conc=3):
     return Batch(plan(seed, ctx.quick), conc)
 
 
-def _account(ctx, seed, spec, res):
+def _account(ctx, seed, spec, res, deferred=None):
     case = {"real": spec}
     feats = features(spec)
     ctx.case(case, nontrivial=True)
@@ -1344,24 +1786,83 @@ def _account(ctx, seed, spec, res):
         ctx.count("real:start-up-retries", obs["startup_retries"])
     for k in obs.get("dropped_under_load", []):
         ctx.count("real:hang-under-load-not-reproduced-" + k)
-        ctx.notes.append(f"real-cluster {k} after the job had started, on an oversubscribed machine (load per core {obs.get('load_per_core')}), not seen in two patient re-runs on the calmer machine: dropped, seed {seed}")
+        ends = [(r.get("ended"), r.get("load_per_core")) for r in (runs or [])]
+        ctx.notes.append(f"real-cluster {k} on an oversubscribed machine (loads per core: {obs.get('loads')}), not seen in every patient deciding run (runs ended / load per core before, after: {ends}): "
+                         f"dropped, seed {seed}, family {spec.get('family')}")
+        ctx.extra.setdefault("real_dropped_under_load", []).append({"seed": seed, "family": spec.get("family"), "kind": k, "loads": obs.get("loads"), "runs": runs})
     for k in obs.get("dropped", []):
         ctx.count("real:flaky-startup-" + k)
-        ctx.notes.append(f"real-cluster {k} before any task body was entered, not reproduced on re-run (start-up flake, ignored), seed {seed}")
+        ctx.notes.append(f"real-cluster {k} before any task body was entered, not reproduced on re-run (start-up flake, ignored), seed {seed}, family {spec.get('family')}, loads {obs.get('loads')}")
+        ctx.extra.setdefault("real_dropped_startup", []).append({"seed": seed, "family": spec.get("family"), "kind": k, "loads": obs.get("loads"), "runs": runs})
     ctx.extra.setdefault("real_runs", []).append({"seed": seed, "family": spec.get("family"), "shape": [spec["hosts"], spec["workers"]], "gpus": spec.get("gpus"), "tasks": len(spec["tasks"]),
                                                   "ext": len(spec["ext"]), "ended": obs["ended"], "t_setup": obs.get("t_setup"), "t_run": obs.get("t_run"), "wall": obs.get("wall"),
-                                                  "stats": st, "verdicts": sorted({x["kind"] for x in vs})})
+                                                  "stats": st, "verdicts": sorted({x["kind"] for x in vs}),
+                                                  **({"first_run_only": True} if obs.get("first_run_only") else {}), **({"where": obs["where"]} if obs.get("where") else {})})
+    if obs.get("first_run_only"):
+        ctx.count("real:first-run-only-after-two-failing-inputs")
     seen = set()
     for x in vs:
         key = json.dumps(x["sig"], sort_keys=True)
         if key in seen:
             continue
         seen.add(key)
+        if x["sig"].get("first_run_only"):
+            if deferred is not None:
+                deferred.append((seed, spec, ref, x))
+            continue
         if x["sig"].get("reproduced") is False:
             ctx.count("real:unreproduced-after-start-" + x["kind"])
-        ctx.violation(x["sig"], dict(case, runs=runs) if runs else case,
+        ctx.violation(x["sig"], dict(case, runs=runs, loads=obs.get("loads")) if runs else case,
                       f"{x['what']} [job of {len(spec['tasks'])} tasks, family {spec.get('family')}, generator seed {seed}; features: {', '.join(feats)}]")
     return st
+
+
+MAX_DEFERRED_CONFIRM = 2
+
+
+def _settle_deferred(ctx, batch, deferred):
+    """After two cases of a batch had a hang / error in their first run, the remaining cases are still run -- once each, without the
+    deciding re-runs (75 s of patience each). A hang / error seen in such a single run is
+      * reported with its own failing input when it is an error that starvation does not explain (_starvation_explains) seen after the
+        job had started, or when a verdict of the same kind has been CONFIRMED on another case of this batch (reproduced there, or
+        reported there under the rules of check_case);
+      * otherwise decided now by the usual deciding runs (check_case), for at most MAX_DEFERRED_CONFIRM cases;
+      * beyond that recorded -- evidence (`real_unconfirmed`) and a note -- and not reported.
+    Either way every family has run, and the evidence says which families were run once only."""
+    if batch.stop.is_set():
+        once = [batch.items[i][1].get("family") for i, r in sorted(batch.results.items()) if len(r) == 4 and isinstance(r[1], dict) and r[1].get("first_run_only")]
+        ctx.extra["real_first_run_only_families"] = once
+        ctx.notes.append(f"real-cluster runs: two cases had a hang / error in their first run; the {len(once)} case(s) started after that were run ONCE each, without deciding re-runs "
+                         f"(families: {once}); no family was skipped")
+    if not deferred:
+        return
+    confirmed = {v["signature"].get("kind") for v in ctx.violations if str(v["signature"].get("kind", "")).startswith("real-cluster-")}
+    done = 0
+    for seed, spec, ref, x in deferred:
+        case = {"real": spec}
+        tail = f" [job of {len(spec['tasks'])} tasks, family {spec.get('family')}, generator seed {seed}; features: {', '.join(features(spec))}]"
+        if not x.get("starvation", True):
+            # an exception of the tree's code reported up, after the job had started: nothing a slow machine makes; counts as it stands
+            ctx.count("real:first-run-only-verdict-reported-" + x["kind"])
+            ctx.violation({"kind": x["kind"], "first_run_only": True}, case, x["what"] + " [seen in the single run of this case; an exception of the tree's code that starvation does not explain]" + tail)
+            confirmed.add(x["kind"])
+        elif x["kind"] in confirmed:
+            ctx.count("real:first-run-only-verdict-reported-" + x["kind"])
+            ctx.violation({"kind": x["kind"], "first_run_only": True}, case, x["what"] + " [seen in the single run of this case; not run again: the same verdict is confirmed on another case of this batch]" + tail)
+        elif done < MAX_DEFERRED_CONFIRM:
+            done += 1
+            ctx.count("real:first-run-only-verdict-decided-by-re-runs")
+            obs, vs, runs = check_case(spec, ref)
+            for y in vs:
+                if y["kind"] == x["kind"] or y["kind"] not in ("real-cluster-hang", "real-cluster-error"):
+                    ctx.violation(y["sig"], dict(case, runs=runs, loads=obs.get("loads")) if runs else case, y["what"] + " [decided after the batch: the single run of this case had shown " + x["kind"] + "]" + tail)
+                    confirmed.add(y["kind"])
+            if not any(y["kind"] == x["kind"] for y in vs):
+                ctx.notes.append(f"real-cluster {x['kind']} in the single run of seed {seed} (family {spec.get('family')}) did not show again in the deciding runs: dropped")
+        else:
+            ctx.count("real:first-run-only-verdict-left-undecided-" + x["kind"])
+            ctx.extra.setdefault("real_unconfirmed", []).append({"seed": seed, "family": spec.get("family"), "kind": x["kind"], "what": x["what"][:400]})
+            ctx.notes.append(f"real-cluster {x['kind']} seen in the single run of seed {seed} (family {spec.get('family')}), neither confirmed elsewhere nor run again (limit {MAX_DEFERRED_CONFIRM}): NOT reported, see evidence real_unconfirmed")
 
 
 def finish_real(ctx, batch):
@@ -1369,22 +1870,19 @@ def finish_real(ctx, batch):
     batch.join()
     t_top = time.time()
     tot = {"transmits": 0, "purges": 0}
+    deferred = []                                 # (seed, spec, ref, verdict): hang / error seen in the single run of a case started after two failing inputs
     for i, (seed, spec) in enumerate(batch.items):
         res = batch.results.get(i)
         if res is None:
             raise InfraError(f"real-cluster run {i} (seed {seed}) did not come back from its thread")
-        if res[0] == "skipped":
-            ctx.count("real:skipped-after-enough-failing-inputs")
-            continue
         if res[0] == "crash":
             if isinstance(res[1], InfraError):
                 raise res[1]
             raise RuntimeError(f"real-cluster harness crashed on seed {seed}: {type(res[1]).__name__}: {res[1]}")
-        st = _account(ctx, seed, spec, res)
+        st = _account(ctx, seed, spec, res, deferred)
         for k in tot:
             tot[k] += (st or {}).get(k, 0)
-    if batch.stop.is_set():
-        ctx.notes.append("real-cluster runs stopped early: enough failing inputs")
+    _settle_deferred(ctx, batch, deferred)
     # the tier must have seen at least one inter-host transfer and one purge on a real cluster: top up with dense 2-host cases
     extra = random.Random(batch.items[0][0] ^ 0x5EED if batch.items else 0)
     tries = 0
@@ -1426,7 +1924,7 @@ def replay(case):
             where = f"position {b['idx']}" if b["how"] == "pos" else f"keyword {b['p']}"
             print(f"    {where} <- " + (f"dataset {b['src'][0]}|{b['src'][1]}" if "src" in b else f"static {_dec_static(b['val'])!r}"))
     if case.get("runs"):
-        print("recorded: the verdict showed in the first of these two consecutive runs of the case only:")
+        print("recorded: the runs of the case the check made (first run, then the deciding run(s)); loads per core:", case.get("loads"))
         for r in case["runs"]:
             print("   ", r)
     ref = reference(spec)
